@@ -333,7 +333,7 @@ fn run_history(threads: usize, steps: &[J], env: &Env, st: &mut Stats) -> CaseRe
                         }
                     }
                 }
-                if !reg.side_effects.is_empty() && nonname_assign(&tree) {
+                if !reg.side_effects.is_empty() && nonname_assign(&tree, &reg.setters) {
                     // whether the operands of an assignment to a non-name run before the error is
                     // not pinned; with registering handlers around, the registry is unknown from
                     // here on, so the rest of the history asserts nothing
@@ -371,15 +371,17 @@ fn run_history(threads: usize, steps: &[J], env: &Env, st: &mut Stats) -> CaseRe
     Ok(())
 }
 
-fn nonname_assign(r: &crate::model::R) -> bool {
+/// an assignment (built-in assignment operator or user SETTER operator, plain or in its `not`
+/// form) whose target is not a plain name
+fn nonname_assign(r: &crate::model::R, setters: &std::collections::BTreeSet<String>) -> bool {
     use crate::model::R;
+    let go = |x: &R| nonname_assign(x, setters);
     match r {
-        R::Infix(op, l, rr) => (crate::model::is_assign(op) && !matches!(**l, R::Ref(_))) || nonname_assign(l) || nonname_assign(rr),
-        R::NotInfix(_, l, rr) => nonname_assign(l) || nonname_assign(rr),
-        R::Prefix(_, x) | R::Postfix(x, _) => nonname_assign(x),
-        R::Cond(c, a, b) => nonname_assign(c) || nonname_assign(a) || nonname_assign(b),
-        R::Call(_, a) | R::List(a) | R::Stmts(a) => a.iter().any(nonname_assign),
-        R::Map(m) => m.iter().any(|(k, v)| nonname_assign(k) || nonname_assign(v)),
+        R::Infix(op, l, rr) | R::NotInfix(op, l, rr) => ((crate::model::is_assign(op) || setters.contains(op)) && !matches!(**l, R::Ref(_))) || go(l) || go(rr),
+        R::Prefix(_, x) | R::Postfix(x, _) => go(x),
+        R::Cond(c, a, b) => go(c) || go(a) || go(b),
+        R::Call(_, a) | R::List(a) | R::Stmts(a) => a.iter().any(go),
+        R::Map(m) => m.iter().any(|(k, v)| go(k) || go(v)),
         _ => false,
     }
 }
